@@ -442,6 +442,39 @@ pub fn check_c06(ctx: &mut Ctx, ty: i32, shp: &[u8], n: usize, rstack: StackCfg)
             (Err(p), _) | (_, Err(p)) => ctx.fail("C06", "panic", p.site(), format!("{}: {}", pair, p.text())),
         }
     }
+    // a typed iteration over records of another type, continued past the first error, never yields a
+    // value of the requested type, and every mismatch it reports names (S, T)
+    if n > 0 {
+        let cap = item_cap(shp.len(), 0);
+        for s_ty in TYPES.iter().copied().filter(|t| *t != ty) {
+            let w4 = mk();
+            let Open::Ok(mut r4) = open(&w4, false, rstack) else { continue };
+            match iter_typed(&mut r4, s_ty, cap) {
+                Ok((items, capped)) => {
+                    if capped {
+                        ctx.fail("C06", "typed-iteration-terminates", type_name(ty), format!("iter_shapes_as::<{}> over a {} file exceeded the item cap", type_name(s_ty), type_name(ty)));
+                    }
+                    for (k, it) in items.iter().enumerate() {
+                        match it {
+                            Ok(g) => {
+                                ctx.fail("C06", "typed-iteration-wrong-type-value", type_name(ty), format!("iter_shapes_as::<{}> over a {} file yielded a value at item {}: {}", type_name(s_ty), type_name(ty), k, g.short()));
+                                break;
+                            }
+                            Err(RErr::Mismatch { requested, actual }) if *requested != s_ty || *actual != ty => {
+                                ctx.fail("C06", "typed-iteration-mismatch-fields", type_name(ty), format!("iter_shapes_as::<{}> over a {} file, item {}: Mismatch {{ requested: {}, actual: {} }}", type_name(s_ty), type_name(ty), k, type_name(*requested), type_name(*actual)));
+                                break;
+                            }
+                            Err(_) => {}
+                        }
+                    }
+                    if items.is_empty() {
+                        ctx.fail("C06", "typed-iteration-reports-mismatch", type_name(ty), format!("iter_shapes_as::<{}> over a {} file of {} records yielded nothing", type_name(s_ty), type_name(ty), n));
+                    }
+                }
+                Err(p) => ctx.fail("C06", "panic", p.site(), format!("iter_shapes_as::<{}> over a {} file: {}", type_name(s_ty), type_name(ty), p.text())),
+            }
+        }
+    }
     // concrete -> generic -> concrete is the identity; TryFrom into any other type names both types
     for s in shapes {
         let code = variant_code(&s);
@@ -567,6 +600,12 @@ fn path_routes(ctx: &mut Ctx, scn: &RtScn, ty: i32, expected: &[Geom], mem_shp: 
     let base = dir.join(format!("rt-{}", crate::prng::fnv_str(&serde_json::to_string(&scn.w).unwrap_or_default())));
     let shp_path = base.with_extension("shp");
     let area = polygon_area_oracle(expected);
+    // the path is not fresh: longer files are already there and must be replaced entirely
+    let mut old = mem_shp.to_vec();
+    old.extend_from_slice(mem_shp);
+    old.extend_from_slice(&[0xAB; 64]);
+    let _ = std::fs::write(&shp_path, &old);
+    let _ = std::fs::write(base.with_extension("shx"), &old);
     let r = guarded(|| -> Result<(), shapefile::Error> {
         let mut w = shapefile::ShapeWriter::from_path(&shp_path)?;
         let shapes = build_all(&scn.w.shapes).unwrap_or_default();
